@@ -73,6 +73,7 @@ class Cfg:
     tags: Tuple[str, ...] = ()
     quick: bool = True  # part of the quick tier
     instance_fields: Tuple[str, ...] = ()  # injected instance family: state fields identifying an instance
+    ref_states_quick: int = 3000  # state cap of the reference-model checks (per-row Python oracles) in the quick tier
     modeb: str = ""  # also explore in mode B with this base schedule ("first" | "last") even if not default-size
     n_instances: int = 0  # ... and how many distinct instances the generator's range has (all must be reached)
 
@@ -339,11 +340,20 @@ CATALOG: List[Cfg] = [
        time_limit=3),
     _c("snake-4x4-T1", "snake", "Snake(4, 4, 1)", kind="awkward", keys_quick=2, keys_thorough=4,
        time_limit=1),
+    _c("snake-2x2-T10", "snake", "Snake(2, 2, 10)", kind="awkward", keys_quick=2, keys_thorough=4, time_limit=10),
+    _c("snake-1x4-T6", "snake", "Snake(1, 4, 6)", kind="awkward", keys_quick=2, keys_thorough=4, time_limit=6),
+    _c("snake-2x3-T14", "snake", "Snake(2, 3, 14)", kind="awkward", keys_quick=1, keys_thorough=3, time_limit=14,
+       ref_states_quick=4500, quick=False),
     _c("snake-default", "snake", "Snake()", kind="default", depth=4, keys_quick=1, keys_thorough=2,
        time_limit=4000),
     # ---------------- Sokoban
     _c("sokoban-simple-T6", "sokoban", "Sokoban(G.sokoban.SimpleSolveGenerator(), time_limit=6)",
        keys_quick=1, keys_thorough=1, time_limit=6),
+    _c("sokoban-simple-T11", "sokoban", "Sokoban(G.sokoban.SimpleSolveGenerator(), time_limit=11)",
+       keys_quick=1, keys_thorough=1, time_limit=11, ref_states_quick=20000),
+    _c("sokoban-simple-sparse-T11", "sokoban", "Sokoban(G.sokoban.SimpleSolveGenerator(), "
+       "reward_fn=R.sokoban.SparseReward(), time_limit=11)", kind="awkward", keys_quick=1, keys_thorough=1,
+       time_limit=11, ref_states_quick=20000, quick=False),
     _c("sokoban-toy-T5", "sokoban", "Sokoban(G.sokoban.ToyGenerator(), time_limit=5)", keys_quick=2,
        keys_thorough=4, time_limit=5),
     _c("sokoban-toy-sparse-T2", "sokoban", "Sokoban(G.sokoban.ToyGenerator(), "
